@@ -8,6 +8,7 @@
   (glibc is assumed correctly rounded) — both assumptions are part of the trusted base.
 -/
 import Edn.Proofs.Float
+import Edn.Proofs.DoubleSpec
 
 namespace Edn.Properties.C05
 open Edn.Model Edn.Spec Edn.Proofs Edn.Generated
@@ -39,6 +40,24 @@ theorem slow_path_is_spec (text : Bytes) :
     strtodSpec text = (let p := decimalParts text; withSign p.1 (ofDec p.2.1 p.2.2)) := by
   unfold strtodSpec
   simp only [clamp_harmless]
+
+/-- The headline statement: for every float literal `[sign] digits [. digits] [e [sign] digits]`
+    (underscores between digits only with the experimental flag) of every length,
+    `parse_double_from_buffer` returns the double nearest to the literal's exact decimal value,
+    ties to even, overflowing to infinity and underflowing to subnormals or signed zero,
+    whichever path is taken (given the `strtod` assumption for the slow path). -/
+theorem literal_correctly_rounded (cfg : Cfg) (text : Bytes) (h : FloatText cfg text) :
+    parseDouble cfg text = (let p := decimalParts text; withSign p.1 (ofDec p.2.1 p.2.2)) :=
+  parseDouble_correctly_rounded cfg text h
+
+/-- two literals denoting the same real number (same sign, mantissas differing by a power of
+    ten compensated in the exponent) read as the same double -/
+theorem same_value_same_double (cfg : Cfg) (t1 t2 : Bytes) (h1 : FloatText cfg t1) (h2 : FloatText cfg t2)
+    (hs : (decimalParts t1).1 = (decimalParts t2).1)
+    (hv : ∃ k : Nat, ((decimalParts t1).2.1 = (decimalParts t2).2.1 * 10 ^ k ∧ (decimalParts t1).2.2 + k = (decimalParts t2).2.2) ∨
+                     ((decimalParts t2).2.1 = (decimalParts t1).2.1 * 10 ^ k ∧ (decimalParts t2).2.2 + k = (decimalParts t1).2.2)) :
+    parseDouble cfg t1 = parseDouble cfg t2 :=
+  Edn.Proofs.same_value_same_double cfg t1 t2 h1 h2 hs hv
 
 /-- the repaired defect: 0.3 is 3 / 10^1 rounded once -/
 example : parseDouble Cfg.core "0.3".toUTF8.toList = 0x3FD3333333333333 := by decide +kernel
